@@ -77,7 +77,10 @@ def cases(tier, seed):
                 classes = []
                 for i, n in enumerate(names):
                     block = SCALAR_BLOCKS[(mi + i) % len(SCALAR_BLOCKS)]
-                    classes.append((n, parent[n], tuple(block) + tuple(combo[i])))
+                    # relation field names are unique per class: a subclass re-declaring an inherited field with another
+                    # type is not part of the documented modelling rules
+                    rel = tuple((f"{fn}{n.lower()}", k, t) for fn, k, t in combo[i])
+                    classes.append((n, parent[n], tuple(block) + rel))
                 order = tuple(range(ncls)) if mi % 2 else tuple(reversed(range(ncls)))
                 out.append(((mi % 3 == 0, tuple(classes)), order, mi))
                 if ncls <= 2:
